@@ -9,6 +9,7 @@ import (
 	"time"
 
 	"github.com/rulego/streamsql"
+	"github.com/rulego/streamsql/functions"
 	"github.com/rulego/streamsql/utils/fieldpath"
 )
 
@@ -72,6 +73,12 @@ func (c05) Gen(rng *rand.Rand, tier string, idx int) Case {
 		c.Cfg = append(c.Cfg, it.tokens())
 	}
 	c.Cfg = append(c.Cfg, w.tokens())
+	if w != nil && rng.Intn(4) == 0 {
+		// the WHERE column goes through a custom identity function that is registered at run time, right before this
+		// case's first Execute (earlier queries of the process have long been compiled): the filter must know it
+		c.Cfg = append(c.Cfg, []string{"wherefn", "1"})
+		c.Stat = append(c.Stat, "where-through-runtime-registered-function")
+	}
 	c.Cfg = append(c.Cfg, []string{"sql", hx(c05BuildSQL(items, w))})
 	nrows := 3 + rng.Intn(8)
 	for i := 0; i < nrows; i++ {
@@ -265,6 +272,8 @@ func c05AsyncRun(sql string, rows []map[string]interface{}, want int, nSinks int
 	return append([][]string(nil), sinkLog...), append([][]string(nil), chanLog...), nil
 }
 
+var c05FnSeq int
+
 func (c05) Exec(c Case) [][][]string {
 	var items []c05PItem
 	var w *c05PWhere
@@ -277,6 +286,23 @@ func (c05) Exec(c Case) [][][]string {
 		}
 	}
 	sql := c05BuildSQL(items, w)
+	if w != nil && c04CfgVal(c, "wherefn", "0") == "1" {
+		// some query has been compiled in this process before the function exists (also when the case is replayed alone)
+		pre := streamsql.New(streamsql.WithDiscardLog())
+		_ = pre.Execute("SELECT a FROM stream WHERE abs(a) >= 0")
+		pre.Stop()
+		c05FnSeq++
+		name := fmt.Sprintf("zzid%d", c05FnSeq)
+		_ = functions.RegisterCustomFunction(name, functions.TypeCustom, "verif", "identity", 1, 1,
+			func(ctx *functions.FunctionContext, args []interface{}) (interface{}, error) { return args[0], nil })
+		defer functions.Unregister(name)
+		s := "SELECT "
+		parts := make([]string, len(items))
+		for i, it := range items {
+			parts[i] = it.sql()
+		}
+		sql = s + strings.Join(parts, ", ") + " FROM stream WHERE " + name + "(" + strings.Join(w.col, ".") + ") " + w.op + " " + c05LitSQL(w.lit)
+	}
 	hist := streamsql.New(streamsql.WithDiscardLog())
 	defer hist.Stop()
 	execErr := hist.Execute(sql)
